@@ -158,29 +158,23 @@ theorem chainStep_mono {n : Nat} (round32 : ℚ → ℚ) {st st1 : PState ℚ} {
         · cases hs
         · simp only [Except.ok.injEq, Option.some.injEq] at hs; subst hs; exact hM
       · split at hs
-        · cases hs
-        · rename_i nn ms hnear
-          split at hs
+        · split at hs
           · split at hs
-            · split at hs
-              · cases hs
-              · split at hs
-                · rename_i node _ _ _ _ _ s1 s2 h1 h2
-                  simp only [Except.ok.injEq, Option.some.injEq] at hs; subst hs
-                  refine monoRows_append hM _ ?_
-                  intro c hc hcn
-                  -- the merged clusters exist, hence their rows
-                  have hb : c < n + rows.length := by
-                    rcases hc with e | e
-                    · rw [e]; exact hP.linv.bound _ (Dict.get?_some_key_mem (hP.sizes _ _ h1))
-                    · rw [e]; exact hP.linv.bound _ (Dict.get?_some_key_mem (hP.sizes _ _ h2))
-                  have hlt : c - n < rows.length := by omega
-                  refine ⟨rows[c - n], List.getElem?_eq_getElem hlt, ?_⟩
-                  exact clampHeight_ge n rows _ _ _ c _ hc hcn (List.getElem?_eq_getElem hlt)
-                · cases hs
-            · simp only [Except.ok.injEq, Option.some.injEq] at hs; subst hs; exact hM
+            · rename_i node _ _ _ _ _ _ _ _ _ s1 s2 h1 h2
+              simp only [Except.ok.injEq, Option.some.injEq] at hs; subst hs
+              refine monoRows_append hM _ ?_
+              intro c hc hcn
+              -- the merged clusters exist, hence their rows
+              have hb : c < n + rows.length := by
+                rcases hc with e | e
+                · rw [e]; exact hP.linv.bound _ (Dict.get?_some_key_mem (hP.sizes _ _ h1))
+                · rw [e]; exact hP.linv.bound _ (Dict.get?_some_key_mem (hP.sizes _ _ h2))
+              have hlt : c - n < rows.length := by omega
+              refine ⟨rows[c - n], List.getElem?_eq_getElem hlt, ?_⟩
+              exact clampHeight_ge n rows _ _ _ c _ hc hcn (List.getElem?_eq_getElem hlt)
+            · cases hs
           · simp only [Except.ok.injEq, Option.some.injEq] at hs; subst hs; exact hM
-        · cases hs
+        · simp only [Except.ok.injEq, Option.some.injEq] at hs; subst hs; exact hM
 
 theorem chainLoop_mono {n : Nat} (round32 : ℚ → ℚ) : ∀ (fuel : Nat) (st st' : PState ℚ) (L : Dict Nat),
     PInv n st.g st.rows st.comps L → MonoRows n st.rows st.rows →
